@@ -59,6 +59,10 @@ def op_term(o):
         return "OAuto %d %s %s" % (o["g"], "(Some %d%%nat)" % o["target"] if o.get("reuse") else "None", coq_bool(bool(o.get("slow"))))
     if o["k"] == "local":
         return "OLocal"
+    if o["k"] == "retry":
+        return "ORetry %d %s" % (o.get("g", 0), coq_bool(bool(o.get("slow"))))
+    if o["k"] == "retire":
+        return "ORetire %d" % o["target"]
     if o["k"] == "p2":
         return "OPhase2 %d %s %s" % (o["target"], coq_bool(o["commit"]), coq_bool(o["stranger"]))
     return "ONop"
@@ -69,18 +73,19 @@ def out_term(op, r):
         return "OSkipped"
     if op["k"] == "p2":
         return "OP2 %s" % coq_bool(bool(r.get("good")))
-    return "OOk" if r["class"] == "ok" else "OErr"
+    return "OOk" if r["class"] == "ok" else ("OErrBad" if r.get("bad") else "OErr")
 
 
 def case_term(res):
     sc = res["scenario"]
     det = tuple(int(x) for x in sc["version"].split(".")[:3]) >= (8, 0, 29)
-    return ("{| c_detach := %s; c_xids := %s; c_bids := %s; c_refuse := %s; c_faults := %s;\n   c_prog := %s;\n"
+    return ("{| c_detach := %s; c_xids := %s; c_bids := %s; c_refuse := %s; c_faults := %s; c_fbad := %s;\n   c_prog := %s;\n"
             "   c_jour := %s;\n   c_out := %s |}") % (
         coq_bool(det), coq_list([coq_hex(h) for h in sc["xids_hex"]]),
         coq_list(["%d" % u64(b) for b in sc["branches"] or []]),
         coq_list([coq_bool(m != 0) for m in sc["refuse"] or []]),
         coq_list(["(%s, %d%%nat)" % (CMD[f["kind"]], f["nth"]) for f in sc["faults"] or []]),
+        coq_list(["(%s, %d%%nat)" % (CMD[f["kind"]], f["nth"]) for f in sc["faults"] or [] if f.get("err") == "badconn"]),
         coq_list([op_term(o) for o in sc["ops"]]),
         coq_list([ev_term(e) for e in res["events"] or []]),
         coq_list([out_term(o, r) for o, r in zip(sc["ops"], res["ops"])]))
@@ -95,6 +100,20 @@ def icase_term(c):
 def slim(res):
     return {"scenario": res["scenario"], "events": [{k: v for k, v in e.items() if k not in ("id", "xid")} for e in res["events"] or []],
             "ops": res["ops"], "oracle": res["oracle"]}
+
+
+def norm_msg(m):
+    """an oracle message with the concrete identifiers / op numbers erased (the KIND of failure)"""
+    import re
+    return re.sub(r"\bop \d+", "op N", re.sub(r"'[^']*'", "'_'", m))
+
+
+def fingerprint(r):
+    """what a committed finding replay is expected to do, exactly: oracle messages, journal, outcomes"""
+    return {"oracle": sorted(norm_msg(m) for m in r["oracle"] or []),
+            "journal": [[e["k"], e.get("conn", 0), e.get("cmd", ""), e.get("idh", ""), e.get("xidh", ""), e.get("res", ""),
+                         e.get("branch", 0)] for e in r["events"] or []],
+            "ops": [[o["class"], bool(o.get("bad")), bool(o.get("good"))] for o in r["ops"]]}
 
 
 def replay_scenarios(chk, scs):
@@ -125,8 +144,9 @@ def run(chk, only=None):
     # the deterministic run: reuse after a SUCCESSFUL branch, ...) belongs to the finding stream
     def listed(r):
         return r["scenario"]["stream"].startswith("finding:") or any(t in preds for t in (r.get("tags") or []))
-    clean = [r for r in results if not listed(r)]
+    clean = [r for r in results if not listed(r)]          # the direct oracle must hold
     fstream = [r for r in results if listed(r)]
+    clean_all = [r for r in results if not r["scenario"]["stream"].startswith("finding:")]   # compared with the model
     # ---- direct oracle on the clean streams
     seen = set()
     for r in clean:
@@ -137,7 +157,14 @@ def run(chk, only=None):
             seen.add(key)
             chk.violation("C17 fails on the real code: " + "; ".join(r["oracle"][:3]), slim(r), True)
     # ---- correspondence with the model (journals, outcomes) inside Coq
-    mism = vlib.eval_mismatches("C17", HEADER, [case_term(r) for r in clean], case_type="xcase", shard=120) if clean else {}
+    # (the model follows the code inside the regions of the listed findings too: tagged scenarios are compared as well;
+    #  code 4 = accepted_legal on the observed journal is part of the oracle and excused there)
+    mism = vlib.eval_mismatches("C17", HEADER, [case_term(r) for r in clean_all], case_type="xcase", shard=120) if clean_all else {}
+    for i in list(mism):
+        if listed(clean_all[i]):
+            mism[i] = [e for e in mism[i] if e != 4]
+            if not mism[i]:
+                del mism[i]
     imism = vlib.eval_mismatches("C17i", HEADER, [icase_term(c) for c in ident], fn="ident_mismatches", case_type="icase",
                                  shard=400) if ident else {}
     for i, c in enumerate(ident):
@@ -145,10 +172,10 @@ def run(chk, only=None):
             chk.violation("identifier: " + c["oracle"], {"ident_case": c}, True)
             break
     if not chk.violations:
-        for i in sorted(mism, key=lambda i: len(clean[i]["events"] or [])):
+        for i in sorted(mism, key=lambda i: len(clean_all[i]["events"] or [])):
             chk.violation("correspondence between the XA model and the code broke (%s); the property is not shown on this tree"
                           % "; ".join(ERR[e] for e in mism[i]),
-                          dict(slim(clean[i]), model_disagreements=[ERR[e] for e in mism[i]], correspondence="Xa/XaCases.v check_case"),
+                          dict(slim(clean_all[i]), model_disagreements=[ERR[e] for e in mism[i]], correspondence="Xa/XaCases.v check_case"),
                           False)
             break
         for i in sorted(imism):
@@ -159,18 +186,45 @@ def run(chk, only=None):
         chk.violation("a proof obligation of C17 no longer checks", {"theorem": PROP_FILE, "coq_output": pr["out"][-1500:]}, False)
     # ---- finding stream: committed replays must still fail; generated variants outside listed predicates are violations
     if only is None:
+        allowed = {}
         for f in findings:
             p = os.path.join(vlib.VERIF, f["replay"])
-            rr = replay_scenarios(chk, json.load(open(p))["scenarios"])
-            if any(r["oracle"] for r in rr):
-                chk.known("%s :: %s" % (f["id"], f["what"]))
-            else:
+            rj = json.load(open(p))
+            rr = replay_scenarios(chk, rj["scenarios"])
+            exp = rj.get("expected") or []
+            allowed[f["pred"]] = {m for e in exp for m in e["oracle"]}
+            got = [fingerprint(r) for r in rr]
+            if not any(r["oracle"] for r in rr):
                 print("STALE-FINDING: property=C17 %s no longer reproduces" % f["id"])
                 chk.notes.append("stale finding " + f["id"])
+            elif got != exp:
+                # the region of a finding excuses its RECORDED failure only
+                k = next((i for i in range(len(rr)) if i >= len(exp) or got[i] != exp[i]), 0)
+                chk.violation("the replay of finding %s no longer does what was recorded (a different failure inside its region): %s"
+                              % (f["id"], "; ".join(rr[k]["oracle"] or ["journal/outcomes differ"])[:300]),
+                              dict(slim(rr[k]), expected=exp[k] if k < len(exp) else None, finding=f["id"]), True)
+            else:
+                chk.known("%s :: %s" % (f["id"], f["what"]))
+        # scenarios inside a listed region (tags): only the recorded KINDS of failure are excused
+        for r in clean_all:
+            tg = [t for t in (r.get("tags") or []) if t in preds]
+            if not tg or not r["oracle"]:
+                continue
+            ok_kinds = set().union(*[allowed.get(t, set()) for t in tg])
+            extra = [m for m in r["oracle"] if norm_msg(m) not in ok_kinds]
+            if extra:
+                chk.violation("C17 fails on the real code in a way no listed finding records (region %s): %s"
+                              % (",".join(tg), "; ".join(extra[:3])), slim(r), True)
+                break
         for r in fstream:
             if not r["scenario"]["stream"].startswith("finding:"):
                 continue
             pred = r["scenario"]["stream"].split(":", 1)[1]
+            if r["oracle"] and pred in preds:
+                extra = [m for m in r["oracle"] if norm_msg(m) not in allowed.get(pred, set())]
+                if extra:
+                    chk.violation("C17 fails on the real code in a way finding %s does not record: %s" % (pred, "; ".join(extra[:3])),
+                                  slim(r), True)
             if r["oracle"] and pred not in preds:
                 chk.violation("C17 fails on the real code (%s): %s" % (pred, "; ".join(r["oracle"][:2])), slim(r), True)
     nontriv = [r for r in clean if any(e["k"] == "sql" and e["cmd"] == "START" for e in r["events"] or [])]
@@ -190,14 +244,16 @@ def run(chk, only=None):
                                               r["scenario"]["version"], [(e.get("cmd"), e.get("res")) for e in r["events"] or []])
                                              for r in nontriv]),
         "rule": "72 enumerated single-branch scenarios (every single fault position START/STMT/END/PREPARE/COMMIT/ROLLBACK, both refusal "
-                "kinds, commit/rollback, holder/stranger, server 5.7.30 and 8.0.30) + 134 enumerated reuse/timeout histories (failed first "
+                "kinds, commit/rollback, holder/stranger, server 5.7.30 and 8.0.30) + 54 enumerated pool-retirement / ErrBadConn / db.ExecContext-retry "
+                "histories + 134 enumerated reuse/timeout histories (failed first "
                 "branch of every kind x second branch on the same pooled connection x phase-two order; timeouts) + %d seeded programs "
-                "(1-4 branches on fresh or pool-reused connections, slow statements, interleaved phase two incl. rollback for failed-START "
+                "(1-4 branches on fresh or pool-reused connections or through db.ExecContext with its retry, pool retirements, slow statements, fault error "
+                "kinds generic/ErrBadConn/context, interleaved phase two incl. rollback for failed-START "
                 "branches, 0-3 faults, refusals, three server versions) + %d malformed-stream programs "
                 "(hostile xids, zero/negative branch ids, up to 6 faults, dangling/duplicate phase two) through the real XA proxy; "
                 "%d identifier cases through XaIdBuild/XaIdBuildWithByte; non-trivial = at least one XA START reached the server; "
                 "distinct by (program, faults, refusals, version, command/result sequence)" % (n, m, len(ident)),
-        "traces_validated_against_impl": len(clean) - len(mism),
+        "traces_validated_against_impl": len(clean_all) - len(mism),
         "ident_cases_validated": len(ident) - len(imism),
         "oracle_failures_clean_stream": sum(1 for r in clean if r["oracle"]),
         "finding_stream_cases": len(fstream),
@@ -206,7 +262,7 @@ def run(chk, only=None):
         "samples": [slim(r) for r in nontriv[50:52]],
     })
     chk.assumptions += [
-        "an injected failure leaves the server state unchanged (no connection loss model inside phase one)",
+        "an injected failure leaves the server state unchanged (driver.ErrBadConn = 'not executed, safe to retry': the session itself stays up)",
         "the coordinator assigns distinct branch ids (hypothesis uniq_bid of the theorems; the generator respects it)",
         "XA END(success) and the XA END(fail) that follows are not both made to fail (hypothesis of C17_legal and C17_failure; "
         "C17_accepted_legal has no such hypothesis)",
